@@ -8,9 +8,27 @@ import (
 
 var overlapShapes = [][2]int{{80, 80}, {80, 81}, {79, 80}, {1, 65535}, {53, 53}, {81, 8080}, {1, 79}, {80, 65535}, {79, 81}}
 
+// fullPortTriple spells "everything" port by port: the whole range of each protocol (split in two for one of them half of the time)
+func fullPortTriple(r *rng.R) []ANPPort {
+	ps := []ANPPort{}
+	for _, pr := range Protos {
+		if r.P(0.25) {
+			cut := rng.Pick(r, []int{1, 80, 32768, 65534})
+			ps = append(ps, ANPPort{Kind: "range", Proto: pr, Port: 1, End: cut}, ANPPort{Kind: "range", Proto: pr, Port: cut + 1, End: 65535})
+		} else {
+			ps = append(ps, ANPPort{Kind: "range", Proto: pr, Port: 1, End: 65535})
+		}
+	}
+	rng.Shuffle(r, ps)
+	return ps
+}
+
 func directedANPPorts(r *rng.R, dst *Workload, c Cfg) ([]ANPPort, bool) {
 	if r.P(0.2) {
 		return nil, false
+	}
+	if r.P(0.07) {
+		return fullPortTriple(r), true
 	}
 	ps := []ANPPort{}
 	for n := r.Range(1, 2); n > 0; n-- {
@@ -180,6 +198,26 @@ func GenPrecedenceWorld(r *rng.R, c Cfg) *World {
 			w.ANPs = append(w.ANPs, a)
 		}
 	}
+	// "everything" granted port by port by the one admin policy that captures the pair, above a NetworkPolicy that grants the pair
+	// nothing: the admin layer's answer is the whole answer and must come out in canonical form
+	if r.P(0.08) {
+		ingress := r.P(0.5)
+		pod, other := src, dst
+		if ingress {
+			pod, other = dst, src
+		}
+		a := ANP{Name: "allport", Priority: pris[0], Subject: SubjectFor(r, w, pod)}
+		rule := ANPRule{Name: "all", Action: "Allow", Peers: []Subject{SubjectFor(r, w, other)}, Ports: fullPortTriple(r), HasPorts: true}
+		deny := NetPol{Ns: pod.Ns, Name: "deny-all", PodSel: Sel{}, HasTypes: true}
+		if ingress {
+			a.Ingress, deny.PolicyTypes = []ANPRule{rule}, []string{"Ingress"}
+		} else {
+			a.Egress, deny.PolicyTypes = []ANPRule{rule}, []string{"Egress"}
+		}
+		w.ANPs, w.BANP = []ANP{a}, nil
+		w.NetPols = []NetPol{deny}
+		w.AddFeature("fullTripleAllowAboveDeny")
+	}
 	rng.Shuffle(r, w.ANPs)
 	TagNetPolFeatures(w)
 	TagAdminFeatures(w)
@@ -297,6 +335,30 @@ func AddCanonStress(r *rng.R, w *World) {
 		}
 		w.NetPols = append(w.NetPols, np)
 		w.AddFeature("holedClusterRule")
+	}
+	// one rule whose peers mix the whole cluster with a specific selector, next to a rule for every pod of the policy's own namespace on
+	// another port: the specific selector keeps a connection of its own whatever the order of the peers inside the rule
+	if r.P(0.3) {
+		wl := rng.Pick(r, w.Workloads)
+		ing := r.P(0.5)
+		spec := NPPeer{PodSel: &Sel{ML: map[string]string{rng.Pick(r, Keys): rng.Pick(r, []string{"mon", "x", "a"})}}}
+		if r.P(0.4) {
+			spec.NsSel = GenSel(r, w, false, 0)
+		}
+		mixed := NPRule{Peers: []NPPeer{{NsSel: &Sel{}}, spec}, Ports: []NPPort{{Port: rng.Pick(r, []int{8050, 80, 443})}}}
+		if r.P(0.5) {
+			mixed.Peers[0], mixed.Peers[1] = mixed.Peers[1], mixed.Peers[0]
+		}
+		own := NPRule{Peers: []NPPeer{{PodSel: &Sel{}}}, Ports: []NPPort{{Port: rng.Pick(r, []int{9090, 81})}}}
+		np := NetPol{Ns: wl.Ns, Name: "mixedpeers", PodSel: *SelFor(r, wl.Labels), HasTypes: true}
+		rules := []NPRule{mixed, own}
+		if ing {
+			np.Ingress, np.PolicyTypes = rules, []string{"Ingress"}
+		} else {
+			np.Egress, np.PolicyTypes = rules, []string{"Egress"}
+		}
+		w.NetPols = append(w.NetPols, np)
+		w.AddFeature("mixedClusterAndSpecificPeers")
 	}
 	w.AddFeature("canonStress")
 	TagNetPolFeatures(w)
